@@ -134,6 +134,16 @@ fn real_cases() -> &'static Vec<String> {
                 v.push(format!("pow({},{})", lit(*a), n));
             }
         }
+        // truncated spellings of e, pi, sqrt 2 … as bases and arguments, with small and large exponents
+        for k in near_constants() {
+            for f in ["exp", "ln", "sqrt", "sin", "cos", "atan", "sinh", "lb", "exp2", "abs"] {
+                v.push(format!("{}({})", f, k));
+            }
+            for n in ["2", "10", "100", "40", "(-90)", "0.5", "3.5", "12.25"] {
+                v.push(format!("{}^{}", k, n));
+                v.push(format!("pow({},{})", k, n));
+            }
+        }
         for a in &pos {
             for b in &any {
                 v.push(format!("{}^{}", lit(*a), lit(*b)));
@@ -266,6 +276,8 @@ impl Prop for C15Prop {
         if char_len(&s) > 256 {
             return None;
         }
+        // one rendering for all evaluators — now and then with Unicode whitespace in it
+        let s = if c.below(8) == 7 { gen::sprinkle_ws(&s, c, 3) } else { s };
         Some(Case::new(ev, s, ph))
     }
     fn check(&self, sub: &str, case: &Case, sc: &mut ShardCtx) -> Result<(), Failure> {
